@@ -135,6 +135,9 @@ func newHCache(p cacheParams) *hcache {
 		h.mem = NewMemoryCache[vmeta](h.cfg, 75, p.Limit, h.interval, p.Shards, ctx)
 		h.c = h.mem
 	}
+	// let the janitor goroutine reach its select (ticker armed) before anything else happens:
+	// otherwise a clock advance in the scenario's prelude precedes the ticker and starts no cycle
+	vsched.Quiesce()
 	h.keys = keysFor(p.Shards)
 	h.names = map[CacheKey]string{}
 	for n, k := range h.keys {
@@ -171,6 +174,7 @@ func refreshDemoted() {
 
 type opRec struct {
 	Thread int    `json:"t"`
+	Sched  int    `json:"-"` // scheduler thread id
 	Op     string `json:"op"`
 	Call   int    `json:"call"`
 	Ret    int    `json:"ret"`
@@ -246,7 +250,7 @@ func (h *hcache) plan(ops []string) []pop {
 //	Q          wait until every daemon is parked
 func (h *hcache) do(thread int, pop pop) opRec {
 	op := pop.code
-	rec := opRec{Thread: thread, Op: op, Call: vsched.Stamp()}
+	rec := opRec{Thread: thread, Sched: vsched.CurrentThread(), Op: op, Call: vsched.Stamp()}
 	f := strings.Split(op, ":")
 	key := func() CacheKey { return h.keys[f[1]] }
 	atoi := func(s string) int { n, _ := strconv.Atoi(s); return n }
